@@ -270,9 +270,30 @@ FAMILIES = {"C16": ("raw",), "C17": ("packed",), "C18": ("raw", "packed", "optio
 
 
 def run(prop, rep, seed, scale=1):
+    cases = [c for c in gen(seed, scale) if c[4] in FAMILIES[prop]]
+    bad, counts = evaluate(prop, cases)
+    held = not bad
+    rep.bounded.append(dict(check="%s/differential (real decoder vs executable specification)" % prop,
+                            bound="%d generated files (seed %d): %s" % (len(cases), seed, ", ".join("%s %d" % kv for kv in sorted(counts.items()))), held=held))
+    for b in bad[:5]:
+        rep.violation("%s/differential/%s" % (prop, b["label"]), dict(detail="bounded differential stand-in", replay=b,
+                                                                    replay_cmd="./check %s --replay <this file>" % prop), True)
+    return len(cases), len(bad)
+
+
+def find_failing(prop, tool, seed=0):
+    """used when a proof obligation fails and the solver's own counterexample does not replay: look for a concrete file of
+    that decoder on which the real code contradicts the executable specification (a witness for the report, never a verdict)"""
+    cases = [c for c in gen(seed, 2) if c[0] == tool and c[4] in FAMILIES[prop]]
+    if not cases:
+        return None
+    bad, _ = evaluate(prop, cases)
+    return bad[0] if bad else None
+
+
+def evaluate(prop, cases):
     from specs import reference as ref
     from vcheck import decoder_props as dp
-    cases = [c for c in gen(seed, scale) if c[4] in FAMILIES[prop]]
     real = run_native(cases)
     bad = []
     counts = {}
@@ -316,10 +337,4 @@ def run(prop, rep, seed, scale=1):
         if why:
             bad.append(dict(tool=tool, label=label, opts=opts, input_b64=base64.b64encode(data).decode() if len(data) < 200000 else None, input_len=len(data),
                             real={k: v for k, v in r.items() if k != "out_b64"}, mismatch=why))
-    held = not bad
-    rep.bounded.append(dict(check="%s/differential (real decoder vs executable specification)" % prop,
-                            bound="%d generated files (seed %d): %s" % (len(cases), seed, ", ".join("%s %d" % kv for kv in sorted(counts.items()))), held=held))
-    for b in bad[:5]:
-        rep.violation("%s/differential/%s" % (prop, b["label"]), dict(detail="bounded differential stand-in", replay=b,
-                                                                    replay_cmd="./check %s --replay <this file>" % prop), True)
-    return len(cases), len(bad)
+    return bad, counts
